@@ -36,7 +36,46 @@ def _flatten_classes(c):
     return [c]
 
 
+class _IntMeta(type):
+    """`int` as seen by the code under verification: int(x) keeps symbolic integers symbolic"""
+    def __call__(cls, *a, **k):
+        if a and type(a[0]) is SymInt:
+            return a[0]
+        if a and type(a[0]) is SymBool:
+            import z3
+            return sym.mkint(z3.If(a[0].t, 1, 0))
+        if a and isinstance(a[0], SymNum):
+            raise OutOfSubset("int() of a symbolic %s" % type(a[0]).__name__)
+        return int(*a, **k)
+
+    def __instancecheck__(cls, obj):
+        return isinstance(obj, int) or type(obj) is SymInt
+
+    def __subclasscheck__(cls, sub):
+        return issubclass(sub, int)
+
+    def __eq__(cls, o):
+        return o is int or o is cls
+
+    def __ne__(cls, o):
+        return not cls.__eq__(o)
+
+    def __hash__(cls):
+        return hash(int)
+
+    def __repr__(cls):
+        return "<class 'int'>"
+
+
+class dv_int(metaclass=_IntMeta):
+    pass
+
+
 def dv_isinstance(obj, classes):
+    if classes is dv_int:
+        classes = int
+    elif isinstance(classes, tuple) and any(c is dv_int for c in _flatten_classes(classes)):
+        classes = tuple(int if c is dv_int else c for c in _flatten_classes(classes))
     for symcls, pys in _SYM_AS:
         if type(obj) is symcls:
             cl = _flatten_classes(classes)
@@ -54,8 +93,8 @@ class _TypeMeta(type):
             t = type(args[0])
             for symcls, pys in _SYM_AS:
                 if t is symcls:
-                    return pys[0]
-            return t
+                    return dv_int if pys[0] is int else pys[0]
+            return dv_int if t is int else t
         return type(*args)
 
     def __instancecheck__(cls, obj):
@@ -115,6 +154,7 @@ class _FloatMeta(type):
 
 SUBSTITUTED_BUILTINS = {
     "len": dv_len,
+    "int": dv_int,
     "isinstance": dv_isinstance,
     "type": dv_type,
     "range": dv_range,
@@ -183,7 +223,21 @@ def load():
     import contextlib
     with contextlib.redirect_stdout(io.StringIO()):
         import dimarray
+    _substitute(dimarray)
     return dimarray
+
+
+# repository functions replaced by a model (each one is an assumption, listed in every evidence file)
+SUBSTITUTED_FUNCTIONS = {
+    "dimarray.core.indexing:_expand_slice": "np.arange(*slice_.indices(size)) -- slice.indices is a CPython builtin that "
+                                            "requires concrete integers; replaced by the same definition over symbolic slice arithmetic",
+}
+
+
+def _substitute(dimarray):
+    import dimarray.core.indexing as ix
+    if getattr(ix._expand_slice, "__module__", "") != symnp.__name__:
+        ix._expand_slice = symnp.expand_slice
 
 
 def resolve(target):
